@@ -47,6 +47,9 @@ func (c *CacheConfig) verify() error {
 	if c.Memory.MemoryBudgetPercent.Read() < 0 || c.Memory.MemoryBudgetPercent.Read() > 100 {
 		return fmt.Errorf("cache.memory.memory_budget_percent must be between 0 and 100")
 	}
+	if c.LockShards.Read() < 1 {
+		return fmt.Errorf("cache.lock_shards must be at least 1")
+	}
 	if c.File.Dir.Read() == "" {
 		return fmt.Errorf("cache.file.dir cannot be empty")
 	}
